@@ -20,6 +20,12 @@ def soft_spheres(package_dir):
     return s
 
 
+def soft_disks(package_dir):
+    s = soft_spheres(package_dir)
+    s["HypercubicSetting"]["dimension"] = "2"
+    return s
+
+
 def lj_atoms(package_dir):
     s = _atoms_base(package_dir)
     s["Coulomb"]["event_handler"] = "lj_event_handler (two_leaf_unit_event_handler)"
@@ -201,7 +207,8 @@ def dip_atom_phase(package_dir):
 BUILDERS = {"soft_spheres": soft_spheres, "lj_atoms": lj_atoms, "hard_spheres": hard_spheres,
             "hard_disks": hard_disks, "hard_disk_dipoles": hard_disk_dipoles,
             "hard_disk_dipoles_cells": hard_disk_dipoles_cells, "cuboid_hard_cells": cuboid_hard_cells,
-            "cuboid_soft": cuboid_soft, "water_motion": water_motion, "dip_atom_phase": dip_atom_phase}
+            "cuboid_soft": cuboid_soft, "water_motion": water_motion, "dip_atom_phase": dip_atom_phase,
+            "soft_disks": soft_disks}
 
 
 def build(package_dir, name):
